@@ -712,6 +712,7 @@ class EvalContract(LibModel):
         hyp_of = lambda r: z3.And(Z.ext(r, sig), WD(c, r), z3.Implies(filt_c, z3.Or(Z.Den(c, r), f)))
         arb = (False,) if alias_once else (False, True)
         arb_iteration = lambda h, witness=False: iteration(h, witness, kinds=arb)
+        self.find_iteration_flags(eng, st, body, ordinal)
         if eng.mode == 'sound':
             inv0 = self.loop_invariant(eng, st, ordinal, z3.BoolVal(False))
             if inv0 is not None:
@@ -823,9 +824,43 @@ class EvalContract(LibModel):
         pass
 
     def loop_invariant(self, eng, st, ordinal, iterated):
-        """contract supplied invariant of loop `ordinal` (z3 Bool over the state) or None; `iterated` is the ghost
-        'at least one iteration has completed'."""
-        return None
+        """invariant of loop `ordinal` (z3 Bool over the state) or None; `iterated` is the ghost 'at least one iteration has
+        completed'.  Default: every *iteration flag* of the loop equals `iterated`.  An iteration flag is a local that holds
+        the constant False when the loop is reached and whose only assignment inside the loop body is `<name> = True` as
+        one of the leading simple statements of the body (so it is executed in every iteration before anything can leave
+        it) - found from the AST, whatever the local is called."""
+        names = [nm for nm in getattr(self, '_loop_flags', {}).get(ordinal, ()) if nm in st.locals]
+        if not names:
+            return None
+        return z3.And(*[eng.to_z3_bool(eng.truth(st, st.locals[nm])) == iterated for nm in names])
+
+    def find_iteration_flags(self, eng, st, body, ordinal):
+        flags = []
+        assigned = {}
+        for x in ast.walk(ast.Module(body=list(body), type_ignores=[])):
+            if isinstance(x, (ast.Assign, ast.AugAssign, ast.AnnAssign, ast.For, ast.NamedExpr, ast.With)):
+                tgts = x.targets if isinstance(x, ast.Assign) else [getattr(x, 'target', None)] if not isinstance(x, ast.With) else \
+                    [i.optional_vars for i in x.items]
+                for t in tgts:
+                    for y in ast.walk(t) if t is not None else ():
+                        if isinstance(y, ast.Name):
+                            assigned[y.id] = assigned.get(y.id, 0) + 1
+        for stmt in body:
+            if (isinstance(stmt, ast.Assign) and len(stmt.targets) == 1 and isinstance(stmt.targets[0], ast.Name)
+                    and isinstance(stmt.value, ast.Constant) and stmt.value.value is True):
+                nm = stmt.targets[0].id
+                cur = st.locals.get(nm)
+                if assigned.get(nm) == 1 and isinstance(cur, C) and cur.v is False:
+                    flags.append(nm)
+                continue
+            if isinstance(stmt, (ast.Assign, ast.AugAssign, ast.Expr)) and not any(
+                    isinstance(y, (ast.Yield, ast.YieldFrom, ast.Await)) for y in ast.walk(stmt)):
+                continue
+            break
+        if not hasattr(self, '_loop_flags'):
+            self._loop_flags = {}
+        self._loop_flags[ordinal] = flags
+        return flags
 
     # ---- duplicate suppression (SymbolicExpression._is_duplicate_output_, proved separately against SeenSet)
     def node__is_duplicate_output_(self, eng, st, recv, args, kwargs, node):
